@@ -143,11 +143,11 @@ func (e *linEnv) path(v ssa.Value) string {
 		if b, ok := e.bind[x]; ok && b.path != "" {
 			return b.path
 		}
-		return x.Name()
+		return refParamName(x)
 	case *ssa.FieldAddr:
-		return e.path(x.X) + "." + fieldOfAddr(x).Name()
+		return e.path(x.X) + "." + refNameOf(fieldOfAddr(x))
 	case *ssa.Field:
-		return e.path(x.X) + "." + fieldOfField(x).Name()
+		return e.path(x.X) + "." + refNameOf(fieldOfField(x))
 	case *ssa.UnOp:
 		if x.Op == token.MUL {
 			return e.path(x.X)
